@@ -206,10 +206,10 @@ def run(ctx):
                 "2^53+1 ns, ratios/jitters from tables, random, ratio = jitter +- 1 ulp, out-of-range; 3 real calls each. "
                 "cache: cases = random scripts (1-30 ops) of GenerateSecret(default|ROOTCA) with per-call CA behaviour (TTL -1h..90d, "
                 "signer, bundle, 4 error kinds), UpdateConfigTrustBundle, rotation callbacks aimed at current/stale/used/absent entries; "
-                "ratio in quarters, jitter in {0, 0.01, 1/16}. conc: N=1..12 goroutines, 0-3 failing CA calls, slow CA. "
+                "ratio in quarters, jitter in {0, 0.01, 1/16}. conc: N=1..12 goroutines, 0-3 failing CA calls, slow CA; plus two stress ops (GenerateSecret || rotation tasks || bundle updates). "
                 "citadel: real CitadelClient against an in-process gRPC CA (normal / three-element / leaf-only / empty chain, gRPC error). "
                 "sds: real sds.Server on its unix socket with 0-5 gRPC subscribers of default/ROOTCA, subscribe / drop / rotate / stale task / "
-                "bundle update. timer: real delayed queue, 3-5 s lifetimes (first delay > 1 s), plus a 200k-iteration stress of the queue. distinct = hash of (ops, implementation outputs) "
+                "bundle update. timer: real delayed queue, 3-5 s lifetimes (first delay > 1 s), plus a stress of the queue (100k single pushes on an empty heap, 25 x (one 100 ms task + burst of 20)). distinct = hash of (ops, implementation outputs) "
                 "(rotate: inputs only); non-trivial = at least one op")
     ctx.assumptions = [
         "float64 rounding in rotateTime is not modelled; real results are accepted within tol(L) = |L|/2^50 + 2 ns of the exact interval",
@@ -282,14 +282,19 @@ MANIFEST = {
                    "real rotateTime observed 3x on 10^4 random certificates and judged by the model's interval with a float tolerance of "
                    "|L|/2^50 + 2 ns; a real SecretManagerClient with a signing fake CA, recording queue and a handler that records the cache "
                    "state at callback time on 2500 random scripts; 150 concurrent runs; 300 scripts through the real CitadelClient and an "
-                   "in-process gRPC CA; 40 scripts through the real sds.Server with gRPC subscribers; 8 real-delayed-queue runs + a 200k "
-                   "iteration queue stress; quick tier); the verif-tagged accessor file security/pkg/nodeagent/cache/zz_verif_c18.go. "
+                   "in-process gRPC CA; 40 scripts through the real sds.Server with gRPC subscribers (subscribe / unsubscribe / two resources per "
+                   "stream / failing CA / changing root); 8 real-delayed-queue runs + a queue stress in two shapes; quick tier); the verif-tagged accessor file security/pkg/nodeagent/cache/zz_verif_c18.go. "
                    "Assumed: mutexes give atomic sections, the CA signs the CSR it is given, CreatedTime values of different CA responses "
                    "differ, float64 rounding stays within the tolerance. Not modelled: file-mounted certificates / fsnotify paths, "
                    "OutputKeyCertToDir; sdsservice.go, citadel/client.go and pkg/queue/delay.go are executed and compared but not modelled "
                    "line by line (the model lets a pushed task run at any time, once; an SDS push is 'every current subscriber re-requests'). "
-                   "The interleaving semantics is tied to the real code sequentially and by concurrent GenerateSecret runs only (no timer / "
-                   "bundle update concurrent with GenerateSecret on the real code). The scheduled delay is proved <= time to expiry from the "
+                   "The interleaving semantics is tied to the real code sequentially, by concurrent GenerateSecret runs, and by an uncontrolled "
+                   "stress (16 goroutines of GenerateSecret || rotation tasks || bundle updates for 1 s) on which the observables of the "
+                   "invariants are asserted (no panic, key matches leaf, CA calls <= clears + 1, queue length = CA calls, the cached "
+                   "certificate's task is pending); specific interleavings are not forced (no gate hooks). 'No later than its expiry' is judged "
+                   "against the NotAfter of the leaf that is served, and the client's ExpireTime / CreatedTime are checked against it. The "
+                   "statement's 'at most one signing request' is proved for successful requests; with a failing CA it is false "
+                   "(at_most_one_signing_request_witness; exact bound signing_requests_segment: one plus the failed ones). The scheduled delay is proved <= time to expiry from the "
                    "instant rotateTime read the clock; strictness is proved for rotateTime, not lifted to the system model; the queue's "
                    "enqueue latency comes on top (lateness is observed against certificate expiry in the timer stream)."),
     "technique": "Lean 4 theorems over an exact model of rotateTime and an atomic-step interleaving model of SecretManagerClient + differential correspondence with the real Go code",
